@@ -492,3 +492,26 @@ def R_asyncimm(toks, label):
     res = out[:k] + _mk([lab, ":"], out[k]) + [out[bo]] + new_body + [out[bc]] + out[bc+3:]
     res[k+1].pre = ""
     return res, 1
+
+
+def R_dropwhere(toks):
+    """drop the `where` clause lines that only bound an error type for `?`/source conversion (`T::Error: std::error::Error + Send + Sync + 'static`,
+    `T::Err: …`): the shims' error constructors are generic without that bound. Trait bounds on T itself (`T: TryFromHeaderValue`) are kept."""
+    k = _fn_kw(toks)
+    if k is None: return toks, 0
+    bo = _body_open(toks, k)
+    w = next((i for i in range(k, bo) if toks[i].kind == "ident" and toks[i].text == "where"), None)
+    if w is None: return toks, 0
+    # predicates separated by ',' at depth 0
+    preds = []; cur = []; i = w + 1
+    while i < bo:
+        t = toks[i]
+        if t.text == "," : preds.append(cur); cur = []; i += 1; continue
+        cur.append(t); i += 1
+    if cur: preds.append(cur)
+    keep = [p for p in preds if not (len(p) > 3 and p[1].text == ":" and p[2].text == ":" and p[3].text in ("Error", "Err"))]
+    new = []
+    for j, p in enumerate(keep):
+        new += p + _mk([","], p[-1], "")
+    out = toks[:w] + ([toks[w]] + new if keep else []) + toks[bo:]
+    return out, len(preds) - len(keep)
